@@ -891,6 +891,156 @@ theorem face3d_hidden_rules (ctx : Ctx) (allEdgesHidden : Bool) (key : String) (
     cases ctx.lookup key <;> simp
   · cases allEdgesHidden <;> simp [resolveVisibleFace, resolveVisible, h1, h2]
 
+/-! ## final round: the hypothesis of draw = specification is exactly "no reference raises" -/
+
+/-- `Forest.lawful` (the decidable hypothesis of `draw_eq_spec`) asks four things at every reference: `Insert.transform` does not raise,
+    properties and block name survive, the grid elements agree.  The last three are THEOREMS (`transformIns_lawful_general`,
+    `minsert_cells_lawful`), so for block trees with non-zero scale factors the hypothesis is exactly: the list `Forest.failing`
+    of references at which `Insert.transform` raises under the accumulated matrix is empty -/
+theorem lawful_iff_no_reference_raises (f : Forest) (m : Aff) (hnz : f.scalesNZ = true) :
+    f.lawful m = true ↔ f.failing m = [] :=
+  lawful_iff_failing_nil f m hnz
+
+/-- draw = specification with the hypothesis in its final form: acyclic closed document, well-formed layout references, non-zero scale
+    factors, and NO reference at which `Insert.transform` raises (no lawfulness check left) -/
+theorem draw_eq_spec_no_raise (doc : Doc) (ctx : Ctx) (ents : List Ent) (he : EntsWF ents)
+    (hr : reach doc (doc.blocks.length + 1) ents = true)
+    (hf : ∀ forest, unfold doc (doc.blocks.length + 1) ents = some forest → forest.scalesNZ = true ∧ forest.failing Aff.id = []) :
+    ∃ forest, unfold doc (doc.blocks.length + 1) ents = some forest ∧
+      drawLayout doc ctx ents = .ok (Spec.flatten ctx none Aff.id 0 forest, State.init) :=
+  draw_eq_spec doc ctx ents he hr (fun forest hu => (lawful_iff_failing_nil forest Aff.id (hf forest hu).1).mpr (hf forest hu).2)
+
+/-- JUSTIFICATION OF THE ORACLE KEY `explode-fallback/` (finding F20): whenever what `draw_layout` sends to the backend differs in ANY
+    way from what the document defines - another primitive, property, handle, coordinate, order, an error - the block tree contains a
+    reference at which `Insert.transform` raises under the matrix accumulated on the way to it, and the reason is the explode
+    fall-back (axes not orthogonal, `fallback_iff_not_orthogonal`) or one of the two "outside the number field" markers.  Layouts
+    without such a reference are drawn exactly as specified. -/
+theorem draw_differs_only_with_raising_reference (doc : Doc) (ctx : Ctx) (ents : List Ent) (forest : Forest) (he : EntsWF ents)
+    (hr : reach doc (doc.blocks.length + 1) ents = true)
+    (hu : unfold doc (doc.blocks.length + 1) ents = some forest) (hnz : forest.scalesNZ = true)
+    (hne : drawLayout doc ctx ents ≠ .ok (Spec.flatten ctx none Aff.id 0 forest, State.init)) :
+    ∃ p ∈ forest.failing Aff.id, (p.2 = .fallback ∨ Outside p.2) ∧ ∃ acc, transformIns acc p.1 = .error p.2 := by
+  cases hfl : forest.failing Aff.id with
+  | nil =>
+    exfalso
+    obtain ⟨f', hu', hd⟩ := draw_eq_spec_no_raise doc ctx ents he hr (fun f hf => by
+      rw [hu] at hf; simp at hf; subst hf; exact ⟨hnz, hfl⟩)
+    rw [hu] at hu'; simp at hu'; subst hu'
+    exact hne hd
+  | cons p ps =>
+    have hp : p ∈ forest.failing Aff.id := by rw [hfl]; exact List.mem_cons_self
+    exact ⟨p, List.mem_cons_self, failing_reason forest Aff.id p hp⟩
+
+-- non-vacuity: the F20 witness has exactly one raising reference (INNER below OUTER, reason fall-back); the lawful witnesses have none
+#guard (unfold fDoc 3 [.ins sOuter]).map (fun f => ((f.failing Aff.id).map (fun p => (p.1.name, p.2)), f.scalesNZ)) =
+  some ([("INNER", .fallback)], true)
+#guard (unfold gDoc 3 [.ins gOuter]).map (fun f => (f.failing Aff.id).length) = some 0
+#guard (unfold wDoc 3 [.ins mOuter]).map (fun f => ((f.failing Aff.id).length, f.scalesNZ)) = some (0, true)
+
+/-- what `draw_layout` sends to the backend is the concatenation, in order, of what each entity of the layout sends when it is drawn
+    on its own; the block reference state is back at its initial value between the entities (no entity influences another one) -/
+theorem layout_is_concatenation (doc : Doc) (ctx : Ctx) (pre post : List Ent) (e : Ent) (out : List Prim) (st : State)
+    (h : drawLayout doc ctx (pre ++ e :: post) = .ok (out, st)) :
+    ∃ o1 o2 o3, drawLayout doc ctx pre = .ok (o1, State.init) ∧ drawLayout doc ctx [e] = .ok (o2, State.init) ∧
+      drawLayout doc ctx post = .ok (o3, State.init) ∧ out = o1 ++ o2 ++ o3 ∧ st = State.init :=
+  drawLayout_split doc ctx pre post e out st h
+
+/-- WHICH primitives can differ in a layout that takes the explode fall-back (finding F20): only those of the layout entities whose OWN
+    block tree contains a raising reference.  Every other entity of the same layout - wherever it stands, whatever its neighbours do -
+    contributes exactly the primitives the document defines for it, at its place in the output -/
+theorem f20_confined_to_entities_with_raising_reference (doc : Doc) (ctx : Ctx) (pre post : List Ent) (e : Ent)
+    (out : List Prim) (st : State) (forest : Forest)
+    (h : drawLayout doc ctx (pre ++ e :: post) = .ok (out, st)) (he : EntsWF [e])
+    (hr : reach doc (doc.blocks.length + 1) [e] = true) (hu : unfold doc (doc.blocks.length + 1) [e] = some forest)
+    (hnz : forest.scalesNZ = true) (hf : forest.failing Aff.id = []) :
+    ∃ o1 o3, out = o1 ++ Spec.flatten ctx none Aff.id 0 forest ++ o3 ∧
+      drawLayout doc ctx pre = .ok (o1, State.init) ∧ drawLayout doc ctx post = .ok (o3, State.init) := by
+  obtain ⟨o1, o2, o3, h1, h2, h3, ho, _⟩ := drawLayout_split doc ctx pre post e out st h
+  obtain ⟨f', hu', hd⟩ := draw_eq_spec_no_raise doc ctx [e] he hr (fun f hf' => by
+    rw [hu] at hf'; simp at hf'; subst hf'; exact ⟨hnz, hf⟩)
+  rw [hu] at hu'; simp at hu'; subst hu'
+  rw [hd] at h2; simp at h2
+  exact ⟨o1, o3, by rw [ho, ← h2], h1, h3⟩
+
+-- non-vacuity: a layout with the F20 reference AND a lawful one: the lawful entity keeps its specified primitive
+#guard (drawLayout fDoc wCtx [.ins sOuter, .leaf .line p0 [⟨0, 0⟩, ⟨1, 1⟩]]).toOption.map (fun r => r.1.map (fun pr => pr.pen)) = some [3, 7]
+
+/-! ## final round: HATCH decision logic -/
+
+/-- `draw_hatch_entity` stated outright: IGNORE (and a HATCH without filling) draws nothing; SHOW_OUTLINE never fills and never draws the
+    pattern: one unfilled path per boundary loop; SHOW_SOLID fills regardless of pattern or gradient; NORMAL / SHOW_APPROXIMATE_PATTERN draw
+    the pattern lines for a pattern filling - unless the pattern is too dense, then (like solid and gradient fillings) ONE filled-paths call
+    with all loops; a HATCH without boundary loop sends nothing in every mode that needs loops -/
+theorem hatch_decision_rules (hasFilling : Bool) (pol : HatchPolicy) (ft : FillType) (dense : Bool) (loops : Nat) :
+    (hasFilling = false ∨ pol = .ignore → hatchDecision hasFilling pol ft dense loops = .nothing) ∧
+    (hasFilling = true → 0 < loops → hatchDecision true .showOutline ft dense loops = .outline loops ∧
+      hatchDecision true .showSolid ft dense loops = .filled loops) ∧
+    (hasFilling = true → (pol = .normal ∨ pol = .approx) → ft = .pattern → dense = false →
+      hatchDecision hasFilling pol ft dense loops = .patternLines) ∧
+    (hasFilling = true → (pol = .normal ∨ pol = .approx) → (ft ≠ .pattern ∨ dense = true) → 0 < loops →
+      hatchDecision hasFilling pol ft dense loops = .filled loops) ∧
+    (∀ n, hatchDecision hasFilling .showOutline ft dense loops ≠ .filled n ∧
+      hatchDecision hasFilling .showOutline ft dense loops ≠ .patternLines) := by
+  refine ⟨?_, ?_, ?_, ?_, ?_⟩
+  · rintro (h | h)
+    · subst h; simp [hatchDecision]
+    · subst h; cases hasFilling <;> simp [hatchDecision]
+  · intro _ hl; have : loops ≠ 0 := by omega
+    simp [hatchDecision, this]
+  · intro h hp hf hd; subst h hf hd
+    rcases hp with rfl | rfl <;> simp [hatchDecision]
+  · intro h hp hf hl; subst h
+    have hl' : loops ≠ 0 := by omega
+    rcases hp with rfl | rfl <;> rcases hf with hf | hf <;> cases ft <;> cases dense <;> simp_all [hatchDecision]
+  · intro n
+    cases hasFilling <;> simp [hatchDecision] <;> split <;> simp
+
+#guard hatchDecision true .normal .pattern false 2 = .patternLines ∧ hatchDecision true .normal .pattern true 2 = .filled 2 ∧
+  hatchDecision true .showOutline .gradient false 2 = .outline 2 ∧ hatchDecision true .ignore .solid false 2 = .nothing
+
+/-! ## final round: lineweight scaling of the backends -/
+
+/-- `Configuration.min_lineweight` / `lineweight_scaling` as the vector backends apply them: the stroke width is never below the
+    minimum, the minimum never below 0.05 mm; scaling 0 gives every stroke the SAME fixed width (the minimum); otherwise the width is
+    the scaled lineweight wherever that exceeds the minimum, and it is monotone in the lineweight for a non-negative scaling -/
+theorem backend_lineweight_rules (cfgMin : Option Rat) (scaling lw lw' : Rat) :
+    1 / 20 ≤ backendMinLineweight cfgMin ∧
+    backendMinLineweight cfgMin ≤ backendStrokeWidth cfgMin scaling lw ∧
+    backendStrokeWidth cfgMin 0 lw = backendMinLineweight cfgMin ∧
+    (scaling ≠ 0 → backendMinLineweight cfgMin < lw * scaling → backendStrokeWidth cfgMin scaling lw = lw * scaling) ∧
+    (0 ≤ scaling → lw ≤ lw' → backendStrokeWidth cfgMin scaling lw ≤ backendStrokeWidth cfgMin scaling lw') := by
+  have hmin : 1 / 20 ≤ backendMinLineweight cfgMin := by
+    simp only [backendMinLineweight]
+    cases cfgMin with
+    | none => exact le_refl _
+    | some k =>
+      simp only
+      split
+      · exact le_refl _
+      · split
+        · rename_i h; exact le_of_lt h
+        · exact le_refl _
+  refine ⟨hmin, ?_, by simp [backendStrokeWidth], ?_, ?_⟩
+  · simp only [backendStrokeWidth]
+    split
+    · exact le_refl _
+    · split
+      · rename_i h; exact le_of_lt h
+      · exact le_refl _
+  · intro hs h; simp [backendStrokeWidth, hs, h]
+  · intro hs hle
+    simp only [backendStrokeWidth]
+    split
+    · exact le_refl _
+    · have hm : lw * scaling ≤ lw' * scaling := mul_le_mul_of_nonneg_right hle hs
+      split <;> split
+      · exact hm
+      · rename_i h1 h2; exact absurd (lt_of_lt_of_le h1 hm) h2
+      · rename_i h1 h2; exact le_of_lt h2
+      · exact le_refl _
+
+#guard backendStrokeWidth none 1 (1/4) = 1/4 ∧ backendStrokeWidth (some 3) 0 2 = 127/500 ∧ backendStrokeWidth (some 1) 2 (1/100) = 127/1500
+
 /-! ## ties to the constants of the live modules -/
 theorem tie_constants :
     Gen.RenderTables.BYLAYER = BYLAYER ∧ Gen.RenderTables.BYBLOCK = BYBLOCK ∧ Gen.RenderTables.BYOBJECT = BYOBJECT ∧
@@ -994,6 +1144,18 @@ theorem tie_pipeline_and_routes :
     Gen.RenderShape.resolveVisibleHead = ["isinstance(entity, Insert) => return not bool(entity.dxf.invisible)",
       "isinstance(entity, Face3d) and (not any(entity.get_edges_visibility())) => return False",
       "isinstance(entity, Viewport) => return entity.is_visible"] := by
+  decide +kernel
+
+
+/-- AST tie of `draw_hatch_entity` (final round): the order of its decisions - no filling, the hatch policy chain (NORMAL: nothing
+    changes; IGNORE: return; SHOW_SOLID: solid filling; SHOW_OUTLINE: solid filling + outline only), pattern filling first (with the
+    dense-pattern fall-through), then the loops, outline before fill, empty path list last - is the order `hatchDecision` transcribes -/
+theorem tie_hatch_policy :
+    Gen.RenderShape.hatchPolicyChain = ["hatch_policy == HatchPolicy.NORMAL => pass", "hatch_policy == HatchPolicy.IGNORE => return",
+      "hatch_policy == HatchPolicy.SHOW_SOLID => filling = Filling()",
+      "hatch_policy == HatchPolicy.SHOW_OUTLINE => filling = Filling(); show_only_outline = True"] ∧
+    Gen.RenderShape.hatchTests = ["properties.filling is None", "hatch_policy == HatchPolicy.NORMAL", "filling.type == Filling.PATTERN",
+      "loops is not None", "show_only_outline", "paths"] := by
   decide +kernel
 
 end EzdxfVerif.Props.C18
